@@ -470,19 +470,21 @@ fn sample_append() -> (Vec<Node>, (u64, u64, u64, [u8; 64]), (bool, u64, u64)) {
 /// 0xAA garbage bytes after the last entry.
 struct EntrySpec {
     kind: u8,
+    /// false = the entry belongs to the current header generation (JS: entry.header == current
+    /// slot), true = it carries the other bit (stale, written before the last header flush)
     bit: bool,
     partial: bool,
 }
 
-fn build_entries<const N: usize>(w: &mut W<N>, specs: &[EntrySpec], sizes: &mut [usize; 4]) -> usize {
+fn build_entries<const N: usize>(w: &mut W<N>, specs: &[EntrySpec], sizes: &mut [usize; 4], current: bool) -> usize {
     let mut at = 8192;
     let mut i = 0;
     while i < specs.len() {
         let sz = if specs[i].kind == 0 {
             let (nodes, up, bf) = sample_append();
-            ref_entry_at(w, at, &RefEntry { nodes: &nodes, upgrade: Some((up.0, up.1, up.2, &up.3)), bitfield: Some(bf) }, specs[i].partial, specs[i].bit)
+            ref_entry_at(w, at, &RefEntry { nodes: &nodes, upgrade: Some((up.0, up.1, up.2, &up.3)), bitfield: Some(bf) }, specs[i].partial, specs[i].bit != current)
         } else {
-            ref_entry_at(w, at, &RefEntry { nodes: &[], upgrade: None, bitfield: Some((true, 0, 1)) }, specs[i].partial, specs[i].bit)
+            ref_entry_at(w, at, &RefEntry { nodes: &[], upgrade: None, bitfield: Some((true, 0, 1)) }, specs[i].partial, specs[i].bit != current)
         };
         sizes[i] = sz;
         at += sz;
@@ -504,10 +506,34 @@ fn expect_entry(e: &Entry, kind: u8) -> bool {
 /// Also checks that the oplog continues *after* the accepted entries: the next entry it writes is
 /// placed at 8192 + (bytes of the accepted entries) and carries the current header bit.
 fn open_entries<const N: usize>(specs: &[EntrySpec], tail: usize, accepted: usize) {
+    open_entries_phase::<N, 0>(specs, tail, accepted)
+}
+
+/// PHASE selects the header-bit phase of the two slots (the bits cycle [F,F] -> [F,T] -> [T,T] ->
+/// [T,F] with every header flush): 0 = slot 0 only, bit F; 1 = [T,T]; 2 = [T,F]; 3 = [F,T];
+/// 4 = [F,F] with both slots.  Equal bits: slot 0 is the newest header and current entries carry
+/// bit 0; different bits: slot 1 is the newest and current entries carry bit 1.
+fn open_entries_phase<const N: usize, const PHASE: u8>(specs: &[EntrySpec], tail: usize, accepted: usize) {
     let mut w = W::<N>::new();
-    ref_header_at(&mut w, 0, &base_header(1), false);
+    let (b0, b1, both) = match PHASE {
+        0 => (false, false, false),
+        1 => (true, true, true),
+        2 => (true, false, true),
+        3 => (false, true, true),
+        _ => (false, false, true),
+    };
+    let current = both && b0 != b1;
+    if !both {
+        ref_header_at(&mut w, 0, &base_header(1), b0);
+    } else if b0 == b1 {
+        ref_header_at(&mut w, 0, &base_header(1), b0);
+        ref_header_at(&mut w, 4096, &base_header(0), b1);
+    } else {
+        ref_header_at(&mut w, 0, &base_header(0), b0);
+        ref_header_at(&mut w, 4096, &base_header(1), b1);
+    }
     let mut sizes = [0usize; 4];
-    let end = build_entries(&mut w, specs, &mut sizes);
+    let end = build_entries(&mut w, specs, &mut sizes, current);
     let mut t = 0;
     while t < tail {
         w.buf[end + t] = 0xAA;
@@ -530,7 +556,7 @@ fn open_entries<const N: usize>(specs: &[EntrySpec], tail: usize, accepted: usiz
     assert!(infos.len() == 1);
     assert!(infos[0].index == 8192 + bytes as u64);
     let d = infos[0].data.as_ref().unwrap();
-    assert!(d[4] & 1 == 0); // header bit false
+    assert!((d[4] & 1 == 1) == current); // new entries carry the current header bit
     assert!(out.oplog.entries_length == accepted as u64 + 1);
     kani::cover!(true, "reached end");
     std::mem::forget(entries);
@@ -559,6 +585,22 @@ entries_harness!(c02_open_valid_then_stale, { 8192 + C_SZ + A_SZ }, [EntrySpec {
 // JS atomic batches: trailing entries flagged partial belong to an unfinished batch and are dropped
 entries_harness!(c06_open_trailing_partial, { 8192 + C_SZ + C_SZ }, [EntrySpec { kind: 1, bit: false, partial: false }, EntrySpec { kind: 1, bit: false, partial: true }], 0, 1);
 entries_harness!(c06_open_only_partial, { 8192 + C_SZ }, [EntrySpec { kind: 1, bit: false, partial: true }], 0, 0);
+// the same recovery question in the other header-bit phases (after 2, 3, 4 header flushes)
+macro_rules! entries_phase_harness {
+    ($name:ident, $phase:expr) => {
+        #[kani::proof]
+        #[kani::stub(std::fmt::format, stub_format)]
+        #[kani::stub(std::string::String::from_utf8, stub_from_utf8)]
+        fn $name() {
+            open_entries_phase::<{ 8192 + 2 * C_SZ }, $phase>(
+                &[EntrySpec { kind: 1, bit: false, partial: false }, EntrySpec { kind: 1, bit: true, partial: false }], 0, 1);
+        }
+    };
+}
+entries_phase_harness!(c02_open_phase_tt, 1);
+entries_phase_harness!(c02_open_phase_tf, 2);
+entries_phase_harness!(c02_open_phase_ft, 3);
+entries_phase_harness!(c02_open_phase_ff_both, 4);
 // a finished batch: partial, partial, final -> all three kept
 entries_harness!(c06_open_finished_batch, { 8192 + 3 * C_SZ }, [EntrySpec { kind: 1, bit: false, partial: true }, EntrySpec { kind: 1, bit: false, partial: true }, EntrySpec { kind: 1, bit: false, partial: false }], 0, 3);
 
